@@ -279,8 +279,8 @@ def nth : List Val → Int → Val
 inductive Key where
   | str (k : Bytes)
   | int (i : Int)
-  | other          -- float, bool, null, collection
-  | undef
+  | other          -- float, bool, null
+  | undef          -- undefined, or a collection: open
 
 inductive Step where
   | next (v : Val)
@@ -403,7 +403,7 @@ def applyFn (name : Bytes) (args : List Val) : Out Val :=
     | _ => .error
   else if name == nLength then
     match args with
-    | [.list xs] => .val (.int xs.length)
+    | [.list xs] => intRes xs.length          -- (a length beyond int64 is open)
     | _ => .error
   else if name == nKeys then
     match args with
@@ -538,6 +538,8 @@ def evalAcc (env : Env) : AccessList → Val → Out Val
         | .str k => .str k
         | .int i => .int i
         | .undefined => .undef
+        | .list _ => .undef               -- a collection as a key: open (its text may not exist)
+        | .map _ => .undef
         | _ => .other
       match access base ns key (match rest with | .nil => true | _ => false) with
       | .next v => evalAcc env rest v
